@@ -719,6 +719,9 @@ class Evaluator:
                     out.append(w)
                 return out
             if _is_seq_ty(ty):
+                # the closures of a lazily built stream run when it is consumed, in this same scope:
+                # their reads are recorded at the binding
+                self.scan_accesses(init, W)
                 for W1, q in self.ev_seq(init, W):
                     w = W1.fork()
                     w.seqs[pat['local']] = q
